@@ -298,7 +298,7 @@ async fn scatter_sql_over_table(
             elapsed_ms: started.elapsed().as_secs_f64() * 1000.0,
             local: true,
         });
-        batches.extend(r.batches);
+        batches.extend(with_schema_placeholder(r));
         return Ok((batches, contributions));
     }
 
@@ -356,7 +356,7 @@ async fn scatter_sql_over_table(
             elapsed_ms: elapsed.as_secs_f64() * 1000.0,
             local: true,
         });
-        batches.extend(r.batches);
+        batches.extend(with_schema_placeholder(r));
     }
 
     for (i, out, elapsed) in remote_out {
@@ -397,6 +397,18 @@ async fn scatter_sql_over_table(
 
     contributions.sort_by_key(|c| c.shard_index);
     Ok((batches, contributions))
+}
+
+/// A fragment run in-process returns no batches for a rowless plain select,
+/// while a remote one ships a schema-only placeholder (decode_ipc). Give the
+/// in-process answer the same placeholder, so that an all-empty answer whose
+/// only active shard is the initiator's still carries its schema to `merge`.
+fn with_schema_placeholder(r: QueryResult) -> Vec<RecordBatch> {
+    if r.batches.is_empty() {
+        vec![RecordBatch::new_empty(r.schema)]
+    } else {
+        r.batches
+    }
 }
 
 /// `max/mean` of a per-node reduction over contributions — the balance metrics
